@@ -37,7 +37,7 @@ def consts(**kw):
 # "2rounds": the wrapped detector object is reconfigured by the user after a first fit / predict and the anomaliser is
 # fitted again (every pair of changepoint sets)
 STAGE = {"quick": [("N4", consts(), 16, [0, 1]), ("N3", consts(N=3, LoHi=3), 1, None), ("N3-2rounds", consts(N=3, VPos=1, LoHi=1, Rounds=2, Kinds={"mean", "max", "sum"}), 1, None)],
-         "thorough": [("N5", consts(N=5), 64, list(range(8))), ("N4", consts(), 8, None), ("N3-2rounds", consts(N=3, LoHi=1, Rounds=2), 4, [0, 1]), ("N4-2rounds", consts(N=4, VPos=1, LoHi=1, Rounds=2, Kinds={"mean", "max"}), 16, [0]), ("N6-sum-median", consts(N=6, VPos=1, Kinds={"mean", "median"}, LoHi=1), 64, list(range(8)))]}
+         "thorough": [("N5", consts(N=5), 64, list(range(8))), ("N4", consts(), 8, None), ("N3-2rounds", consts(N=3, LoHi=1, Rounds=2), 4, [0]), ("N4-2rounds", consts(N=4, VPos=1, LoHi=1, Rounds=2, Kinds={"mean", "max"}), 16, [0]), ("N6-sum-median", consts(N=6, VPos=1, Kinds={"mean", "median"}, LoHi=1), 64, list(range(8)))]}
 
 
 def countpos(v):
